@@ -1,1 +1,4 @@
 import SmtpV.Props.C19
+#print axioms SmtpV.Props.C19.C19_short_lines_ok
+#print axioms SmtpV.Props.C19.C19_long_line_trips
+#print axioms SmtpV.Props.C19.C19_long_line_refused
